@@ -236,7 +236,35 @@ func c19Check(c C19Case, rec *Recorder) *Disc {
 		if n >= 2 {
 			rec.NonTrivialHash(h64(fmt.Sprintf("%+v|%d", *c.Cfg, c.Break)))
 		}
-		return c19CheckErr(err, c.Break, fmt.Sprintf("error returned for cfg %+v", *c.Cfg), rec)
+		if d := c19CheckErr(err, c.Break, fmt.Sprintf("error returned for cfg %+v", *c.Cfg), rec); d != nil {
+			return d
+		}
+		// "errors returned by NewMiddleware or Reconfigure": the same count for Reconfigure on a zero value and on a
+		// middleware that is configured already (debug on or off)
+		live, lerr := cors.NewMiddleware(cors.Config{Origins: []string{"https://live.example"}, Methods: []string{"PUT"}})
+		if lerr != nil {
+			return nil
+		}
+		live.SetDebug(c.Break%2 == 0)
+		for i, m := range []*cors.Middleware{new(cors.Middleware), live} {
+			x := c.Cfg.Cors()
+			rerr := m.Reconfigure(&x)
+			what := []string{"Reconfigure on a zero value", "Reconfigure on a configured middleware"}[i]
+			if rerr == nil {
+				return discf("cfg %+v: %s accepts what NewMiddleware rejects", *c.Cfg, what)
+			}
+			k := 0
+			for range cfgerrors.All(rerr) {
+				k++
+			}
+			if k != len(exp) {
+				return discf("cfg %+v: %s: All yields %d errors but the configuration contains %d individual violations %v: %v", *c.Cfg, what, k, len(exp), exp, rerr)
+			}
+			if d := c19CheckErr(rerr, c.Break, fmt.Sprintf("error returned by %s for cfg %+v", what, *c.Cfg), rec); d != nil {
+				return d
+			}
+		}
+		return nil
 	}
 	pool := newLeafPool()
 	ctr := 0
@@ -253,7 +281,7 @@ func c19Check(c C19Case, rec *Recorder) *Disc {
 func c19Prop() Prop[C19Case] {
 	return Prop[C19Case]{ID: "C19", Gen: c19Gen, Check: c19Check,
 		Rule: "generator: join trees built recursively with errors.Join (depth up to 11, fan-out up to 13, node budget up to 300, joins of one, nested joins, the same leaf pointer at several positions, equal-but-distinct leaves) from non-nil leaves (the eight cfgerrors types, foreign errors, and single-%w wrappers of plain errors and of joins - which are leaves, not joins) x break position in [-1, leaves]; " +
-			"25% of cases instead use the error returned by NewMiddleware for a many-violation configuration. Oracle: full iteration yields exactly the leaves as a multiset by identity (order is documented as unspecified); " +
+			"25% of cases instead use the errors returned by NewMiddleware, by Reconfigure on a zero value and by Reconfigure on a configured middleware for a many-violation configuration. Oracle: full iteration yields exactly the leaves as a multiset by identity (order is documented as unspecified); " +
 			"with a consumer that stops after k items: exactly k+1 calls to yield, none afterwards (hand-driven iterator and range+break); the SAME value returned by one All call, ranged over three times (the second time interrupted), yields exactly the leaves on every complete pass; for configuration errors: count == number of individual violations. " +
 			"non-trivial = depth >= 2 with the break strictly before the last leaf, or a configuration error with >= 2 leaves; distinct by (tree, break).",
 		Assumptions: []string{"All(nil), multi-%w wrappers (which implement Unwrap() []error themselves) and errors.Join() of nothing are outside the documented contract and not generated"}}
